@@ -3499,7 +3499,7 @@ def operator_truediv(a, b):
         return operator_truediv_impl
 
 
-@numba.extending.overload(operator.pow)
+@numba.extending.overload(operator.pow, prefer_literal=True)
 def operator_pow(a, b):
     if (
         isinstance(a, VectorObject2DType)
